@@ -409,14 +409,14 @@ func init() {
 			for i := 0; i < 10; i++ {
 				s := d.NewSpec("write", fmt.Sprintf("wr-%d", i), i, 16)
 				s.N = d.Pick(20, 400)
-				s.TimeoutS = 1200
+				s.TimeoutS = int(d.Pick(300, 1200))
 				specs = append(specs, s)
 			}
 			for i := 0; i < 4; i++ {
 				s := d.NewSpec("write", fmt.Sprintf("wr-race-%d", i), 50+i, 16)
 				s.N = d.Pick(8, 120)
 				s.Flavour = "race"
-				s.TimeoutS = 1200
+				s.TimeoutS = int(d.Pick(300, 1200))
 				specs = append(specs, s)
 			}
 			specs = append(specs, d.NewSpec("missing", "missing", 0, 1))
